@@ -227,6 +227,11 @@ func (c *Context) Mul(d, x, y *Decimal) (Condition, error) {
 	d.Negative = neg
 	d.Form = Finite
 	res := d.setExponent(c, unknownNumDigits, 0, int64(x.Exponent), int64(y.Exponent))
+	if res.SystemOverflow() || res.SystemUnderflow() {
+		// The exponent could not be set: d.Exponent still holds whatever the
+		// destination contained before, so there is nothing to round.
+		return c.goError(res)
+	}
 	res |= c.round(d, d)
 	return c.goError(res)
 }
